@@ -277,3 +277,12 @@ Print Assumptions C08_device_rejects_bad_reset.
 Print Assumptions C08_search_object_first_in_preorder.
 Print Assumptions C08_write_sends_reset.
 Print Assumptions C08_ref_write_sends_override.
+
+(* The ORDER of the passes that Pipeline.v sequences (and in which the first error wins), TRANSLATED from the two
+   `run_passes` functions of generation/src/{mir,lir}/passes/mod.rs on every build: reset_values_converted runs after refs_validated (the repair of D14) and before bool_fields_checked / bit_ranges_validated. *)
+From DD Require GenPassOrder.
+Theorem C08_pass_order_from_source :
+  DDGen.PassOrder.mir_pass_order = GenPassOrder.expected_mir_pass_order /\
+  DDGen.PassOrder.lir_pass_order = GenPassOrder.expected_lir_pass_order.
+Proof. exact GenPassOrder.pass_order_as_modelled. Qed.
+Print Assumptions C08_pass_order_from_source.
